@@ -96,7 +96,7 @@ def r18_1(ctx):
                 ok = k in bcons
                 r.ob("pairing:Buffer:%s:%s" % (f.name, k), ok, f.loc(line),
                      "Buffer built in %s by forgetting a `%s`, released as %s%s" % (f.name, k, sorted(bcons), "" if ok else ": the deallocation layout (size) differs whenever capacity != length"))
-        r.ob("pairing:Buffer:producers-found", len(sites) >= 2, "", "%d Buffer producers" % len(sites))
+        r.ob("pairing:Buffer:producers-found", len(sites) >= 1, "", "%d Buffer producers" % len(sites))
         r.ob("pairing:Buffer:consumer-found", len(bcons) == 1, "", "Buffer consumers: %s" % sorted(bcons))
         # every other consumer has a producer of the same owner type and vice versa (or a reviewed reason)
         for k, v in sorted(cons.items()):
